@@ -704,9 +704,27 @@ def rule_whole_body_listed(prog, fixture=False):
                    "the fread buffer and its length argument is the fread count, less one only where the last byte "
                    "was tested to be the 0x0D terminator (so no byte of a line - in particular none inside a quoted "
                    "string - is dropped, and none is invented)", floor=0 if fixture else 2)
+    sites = []
     for fn, call, var, want, buf in c09._fread_sites(prog):
         if want is None:
             continue
+        if any(x.get("k") == "CallExpr" and notpl(x.get("q") or "") in c09.DECODERS for x in fn.walk()):
+            sites.append((fn, call, var, want, buf))
+            continue
+        # a reader helper: fread(buffer parameter, 1, count parameter, f) - seen from each of its callers
+        wb, bb = strip_all(want), strip_all(buf)
+        pi = {p_["d"]: i for i, p_ in enumerate(fn.params)}
+        if wb is None or bb is None or wb.get("d") not in pi or bb.get("d") not in pi:
+            continue
+        if any(d_ in (wb["d"], bb["d"]) for x in fn.walk() for d_, _ in flow.written_decls(x)):
+            continue
+        for g in prog.functions.values():
+            for c in g.walk():
+                if c.get("k") == "CallExpr" and fn in prog.call_targets(g, c):
+                    a = call_args(c)
+                    if max(pi[wb["d"]], pi[bb["d"]]) < len(a):
+                        sites.append((g, c, None, a[pi[wb["d"]]], a[pi[bb["d"]]]))
+    for fn, call, var, want, buf in sites:
         base = _base_and_offset(fn, want)
         if base is None or base[2] != 0:
             r.undecided.append("%s: the fread count `%s` is not a plain variable" % (fn.loc(call), show(want)))
@@ -716,7 +734,7 @@ def rule_whole_body_listed(prog, fixture=False):
         decs = [n for n in fn.walk() if n.get("k") == "CallExpr" and notpl(n.get("q") or "") in c09.DECODERS
                 and order[id(n)] > order[id(call)]]
         # only the decoder calls that follow this fread before the next one
-        later = [order[id(c2)] for _f, c2, _v, _w, _b in c09._fread_sites(prog) if _f is fn and order[id(c2)] > order[id(call)]]
+        later = [order[id(c2)] for _f, c2, _v, _w, _b in sites if _f is fn and order[id(c2)] > order[id(call)]]
         lim = min(later) if later else None
         g = None
         for dc in decs:
